@@ -35,6 +35,30 @@ def run_command(cmd, cli, userfile=None):
     return args, captured
 
 
+def cli_args(cmd, accts, flags, DT):
+    """the same configuration as it arrives from the real command line: argparser -> merge_config"""
+    from ofxtools.scripts import ofxget
+    opt = {"checking": "-C", "savings": "-S", "moneymrkt": "-M", "creditline": "-L", "creditcard": "-c", "investment": "-i"}
+    argv = [{"request_stmt": "stmt", "request_stmtend": "stmtend"}[cmd], "--url", "https://ofx.example.com", "-u", "porkypig", "--dryrun", "--bankid", "B-1",
+            "-s", DT["dtstart"], "-e", DT["dtend"]]
+    if cmd == "request_stmt":
+        argv += ["-a", DT["dtasof"], "--brokerid", "BR-2"]
+    for t, vs in accts.items():
+        for v in vs:
+            if not (cmd == "request_stmtend" and t == "investment"):      # stmtend has no -i option
+                argv += [opt[t], v]
+    if cmd == "request_stmt":
+        for fl, sw in (("inctran", "--no-transactions"), ("incpos", "--no-positions"), ("incbal", "--no-balances")):
+            if not flags.get(fl, True):
+                argv.append(sw)
+        if flags.get("incoo"):
+            argv.append("--open-orders")
+    ns = ofxget.make_argparser().parse_args(argv)
+    cfg = ofxget.UserConfig()
+    with patch("builtins.print"):
+        return ofxget.merge_config(ns, cfg)
+
+
 def check_configured(it, fn, a):
     cmd, accts, flags, seed = a
     from ofxtools.Types import DateTime
@@ -46,7 +70,20 @@ def check_configured(it, fn, a):
     import warnings
     with warnings.catch_warnings():
         warnings.simplefilter("ignore")
-        args, cap = run_command(cmd, cli)
+        if seed % 2 == 0:
+            args, cap = run_command(cmd, cli)
+        else:
+            try:
+                merged = cli_args(cmd, accts, flags, DT)
+            except SystemExit as ex:
+                raise RuntimeError(f"harness: the real argument parser refused the generated command line ({ex})")
+            args, cap = run_command(cmd, {} if cmd == "request_stmt" else {"brokerid": "BR-2", **({"investment": list(accts["investment"])} if "investment" in accts else {})}, merged)     # stmtend has no --brokerid option
+            flags = {k: args[k] for k in ("inctran", "incoo", "incpos", "incbal")} if cmd == "request_stmt" else flags
+            if cmd == "request_stmt":
+                want_flags = {"inctran": a[2].get("inctran", True), "incpos": a[2].get("incpos", True), "incbal": a[2].get("incbal", True), "incoo": bool(a[2].get("incoo"))}
+                for k_, v_ in want_flags.items():
+                    if bool(args[k_]) != bool(v_):
+                        return [f"command line asked {k_}={v_}; in effect {args[k_]}"]
     rqs = cap["rqs"]
     D = DateTime().convert
     start, end, asof = D(DT["dtstart"]), D(DT["dtend"]), D(DT["dtasof"])
@@ -124,9 +161,9 @@ def acctinfo_markup(infos, per_acctinfo):
     for kind, acct, typ, status in infos:
         if kind == "bank":
             built.append(models.BANKACCTINFO(bankacctfrom=models.BANKACCTFROM(bankid="111000614", acctid=acct, accttype=typ),
-                                             suptxdl=True, xfersrc=False, xferdest=False, svcstatus=status))
+                                             suptxdl=(sum(map(ord, acct)) % 2 == 0), xfersrc=False, xferdest=False, svcstatus=status))
         elif kind == "cc":
-            built.append(models.CCACCTINFO(ccacctfrom=models.CCACCTFROM(acctid=acct), suptxdl=True, xfersrc=False, xferdest=False, svcstatus=status))
+            built.append(models.CCACCTINFO(ccacctfrom=models.CCACCTFROM(acctid=acct), suptxdl=(sum(map(ord, acct)) % 2 == 0), xfersrc=False, xferdest=False, svcstatus=status))
         elif kind == "bp":
             # a bill-pay enrolment: it names a bank account, but it is not a bank account to fetch statements for
             built.append(models.BPACCTINFO(bankacctfrom=models.BANKACCTFROM(bankid="111000614", acctid=acct, accttype=typ), svcstatus=status))
